@@ -167,11 +167,13 @@ def build(E, c, W, nsrc, nfreq, max_workers, file_dir, gridding='same'):
         kw['gridding_opts'] = {s_: {f_: (small if i == 0 else grid)
                                     for f_ in freqs}
                                for i, s_ in enumerate(srcs)}
-        import discretize
-        real_va = discretize.utils.volume_average
-        saved.append((E.maps.discretize.utils, 'volume_average', real_va))
-        E.maps.discretize.utils.volume_average = \
-            lambda og, ng, *a, **k: _SymP(real_va(og, ng, *a, **k))
+    # discretize's volume-average matrix applied to symbolic vectors (used
+    # for the gradient whenever a computational grid is not the model grid)
+    import discretize
+    real_va = discretize.utils.volume_average
+    saved.append((E.maps.discretize.utils, 'volume_average', real_va))
+    E.maps.discretize.utils.volume_average = \
+        lambda og, ng, *a, **k: _SymP(real_va(og, ng, *a, **k))
     sim = E.simulations.Simulation(sv, model, gridding=gridding,
                                    max_workers=max_workers,
                                    receiver_interpolation='linear', verb=0,
